@@ -207,7 +207,11 @@ TCrashProbe == /\ IsEvent("CrashProbe") /\ Same
                   /\ (CrashMode = "atomic" => d = prev \/ d = db)
 
 \* maintenance operations change nothing (C05): the Observe that follows must equal the state
+\* C05: the operation succeeded, the abstract state is unchanged (the Observe that follows is compared with it) and - where
+\* the driver recorded it - everything a reader sees INCLUDING result order (dump lists, alias and index listings, index
+\* search ids) is what it was before the operation
 TMaintain == IsEvent("Maintain") /\ E.ok /\ db' = db /\ prev' = db
+             /\ ("order_same" \in DOMAIN E => E.order_same)
 
 \* a probe run starts from a state dumped from the real database (validated in its own run)
 TLoad == IsEvent("Load") /\ db' = DumpState(E) /\ prev' = DumpState(E) /\ DbInv(DumpState(E))
